@@ -11,6 +11,10 @@ import (
 	"strings"
 	"sync"
 
+	kv2 "github.com/cossacklabs/acra/keystore/v2/keystore"
+	"github.com/cossacklabs/acra/keystore/v2/keystore/filesystem/backend"
+	backendapi "github.com/cossacklabs/acra/keystore/v2/keystore/filesystem/backend/api"
+
 	"verif/internal/fix"
 )
 
@@ -21,33 +25,44 @@ var (
 	cliOnce sync.Once
 	cliBin  string
 	cliErr  error
+
+	keysOnce sync.Once
+	keysBin  string
+	keysErr  error
 )
 
+func buildTool(name string) (string, error) {
+	root := os.Getenv("VERIF_ROOT")
+	if root == "" {
+		root = "/verif"
+	}
+	dir, err := os.MkdirTemp("", "c18-cli-")
+	if err != nil {
+		return "", err
+	}
+	bin := filepath.Join(dir, name)
+	args := []string{"build", "-o", bin}
+	if mf := os.Getenv("VERIF_MODFILE"); mf != "" {
+		args = append(args, "-modfile="+mf)
+	}
+	args = append(args, "github.com/cossacklabs/acra/cmd/"+name)
+	cmd := exec.Command("go", args...)
+	cmd.Dir = root
+	cmd.Env = append(os.Environ(), "GOFLAGS=-mod=mod", "GOPROXY=off", "GOSUMDB=off", "GOTOOLCHAIN=local")
+	if out, err := cmd.CombinedOutput(); err != nil {
+		return "", fmt.Errorf("building %s: %v: %s", name, err, out)
+	}
+	return bin, nil
+}
+
 func acraBackupBinary() (string, error) {
-	cliOnce.Do(func() {
-		root := os.Getenv("VERIF_ROOT")
-		if root == "" {
-			root = "/verif"
-		}
-		dir, err := os.MkdirTemp("", "c18-cli-")
-		if err != nil {
-			cliErr = err
-			return
-		}
-		cliBin = filepath.Join(dir, "acra-backup")
-		args := []string{"build", "-o", cliBin}
-		if mf := os.Getenv("VERIF_MODFILE"); mf != "" {
-			args = append(args, "-modfile="+mf)
-		}
-		args = append(args, "github.com/cossacklabs/acra/cmd/acra-backup")
-		cmd := exec.Command("go", args...)
-		cmd.Dir = root
-		cmd.Env = append(os.Environ(), "GOFLAGS=-mod=mod", "GOPROXY=off", "GOSUMDB=off", "GOTOOLCHAIN=local")
-		if out, err := cmd.CombinedOutput(); err != nil {
-			cliErr = fmt.Errorf("building acra-backup: %v: %s", err, out)
-		}
-	})
+	cliOnce.Do(func() { cliBin, cliErr = buildTool("acra-backup") })
 	return cliBin, cliErr
+}
+
+func acraKeysBinary() (string, error) {
+	keysOnce.Do(func() { keysBin, keysErr = buildTool("acra-keys") })
+	return keysBin, keysErr
 }
 
 var backupKeyLine = regexp.MustCompile(`Backup master key: ([A-Za-z0-9+/=]+)`)
@@ -125,7 +140,7 @@ var logPrefix = regexp.MustCompile(`^time="[^"]*" `)
 func lastLines(s string) string {
 	var keep []string
 	for _, l := range strings.Split(strings.TrimSpace(s), "\n") {
-		if strings.Contains(l, "level=error") || strings.Contains(l, "panic") {
+		if strings.Contains(l, "level=error") || strings.Contains(l, "level=fatal") || strings.Contains(l, "panic") {
 			keep = append(keep, logPrefix.ReplaceAllString(l, ""))
 		}
 	}
@@ -133,4 +148,161 @@ func lastLines(s string) string {
 		keep = keep[len(keep)-3:]
 	}
 	return strings.Join(keep, " | ")
+}
+
+// ---- acra-keys on a keystore v2 -------------------------------------------------------------------
+
+// v2MasterKeyEnv is ACRA_MASTER_KEY of the fixtures' v2 key stores (fix.V2Suite).
+func v2MasterKeyEnv() string {
+	enc, sig := make([]byte, 32), make([]byte, 32)
+	for i := range enc {
+		enc[i], sig[i] = byte(i+1), byte(0xA0+i)
+	}
+	b, _ := (&kv2.SerializedKeys{Encryption: enc, Signature: sig}).Marshal()
+	return "ACRA_MASTER_KEY=" + base64.StdEncoding.EncodeToString(b)
+}
+
+// memToDir writes the content of an in-memory back end into a fresh directory back end.
+func memToDir(m backendapi.Backend) (string, error) {
+	root := fix.TempDir("c18-v2dir-")
+	dir := filepath.Join(root, "keys")
+	d, err := backend.CreateDirectoryBackend(dir)
+	if err != nil {
+		os.RemoveAll(root)
+		return "", err
+	}
+	defer d.Close()
+	paths, err := m.ListAll()
+	if err != nil {
+		os.RemoveAll(root)
+		return "", err
+	}
+	for _, p := range paths {
+		data, err := m.Get(p)
+		if err == nil {
+			err = d.Put(p, data)
+		}
+		if err != nil {
+			os.RemoveAll(root)
+			return "", err
+		}
+	}
+	return dir, nil
+}
+
+// dirToMem brings the in-memory back end to the state of the directory (objects are never removed by an import).
+func dirToMem(dir string, m backendapi.Backend) error {
+	d, err := backend.OpenDirectoryBackend(dir)
+	if err != nil {
+		return err
+	}
+	defer d.Close()
+	paths, err := d.ListAll()
+	if err != nil {
+		return err
+	}
+	have := map[string]bool{}
+	for _, p := range paths {
+		have[p] = true
+		data, err := d.Get(p)
+		if err != nil {
+			return err
+		}
+		if old, err := m.Get(p); err == nil && bytes.Equal(old, data) {
+			continue
+		}
+		if err := m.Put(p, data); err != nil {
+			return err
+		}
+	}
+	old, _ := m.ListAll()
+	for _, p := range old {
+		if !have[p] {
+			return fmt.Errorf("object %q disappeared from the directory", p)
+		}
+	}
+	return nil
+}
+
+func runKeys(args ...string) (string, error) {
+	bin, err := acraKeysBinary()
+	if err != nil {
+		return "", fmt.Errorf("harness: %v", err)
+	}
+	work, err := os.MkdirTemp("", "c18-cli-run-")
+	if err != nil {
+		return "", err
+	}
+	defer os.RemoveAll(work)
+	cmd := exec.Command(bin, args...)
+	cmd.Dir = work
+	cmd.Env = []string{"PATH=" + os.Getenv("PATH"), v2MasterKeyEnv()}
+	var out bytes.Buffer
+	cmd.Stdout, cmd.Stderr = &out, &out
+	err = cmd.Run()
+	return out.String(), err
+}
+
+// keysExportV2 runs `acra-keys export` on a copy of the in-memory v2 store: --all (with --private_keys for mode
+// "private") or the named keys.
+func keysExportV2(m backendapi.Backend, all, private bool, keyIDs []string) (*bundle, error) {
+	dir, err := memToDir(m)
+	if err != nil {
+		return nil, fmt.Errorf("harness: %v", err)
+	}
+	defer os.RemoveAll(filepath.Dir(dir))
+	out := filepath.Dir(dir)
+	dataFile, keysFile := filepath.Join(out, "bundle.dat"), filepath.Join(out, "bundle.key")
+	args := []string{"export", "--keys_dir=" + dir, "--key_bundle_file=" + dataFile, "--key_bundle_secret=" + keysFile}
+	if all {
+		args = append(args, "--all")
+	}
+	if private {
+		args = append(args, "--private_keys")
+	}
+	args = append(args, keyIDs...)
+	o, err := runKeys(args...)
+	if err != nil {
+		if strings.HasPrefix(err.Error(), "harness") {
+			return nil, err
+		}
+		return nil, fmt.Errorf("acra-keys export: %v: %s", err, lastLines(o))
+	}
+	data, err := os.ReadFile(dataFile)
+	if err != nil {
+		return nil, fmt.Errorf("acra-keys export reported success but wrote no bundle: %v", err)
+	}
+	keys, err := os.ReadFile(keysFile)
+	if err != nil {
+		return nil, fmt.Errorf("acra-keys export reported success but wrote no bundle secret: %v", err)
+	}
+	return &bundle{data: data, keys: keys}, nil
+}
+
+// keysImportV2 runs `acra-keys import` on a directory copy of the in-memory target and brings the result back.
+func keysImportV2(m backendapi.Backend, b *bundle) error {
+	dir, err := memToDir(m)
+	if err != nil {
+		return fmt.Errorf("harness: %v", err)
+	}
+	defer os.RemoveAll(filepath.Dir(dir))
+	out := filepath.Dir(dir)
+	dataFile, keysFile := filepath.Join(out, "bundle.dat"), filepath.Join(out, "bundle.key")
+	if err := os.WriteFile(dataFile, b.data, 0o600); err != nil {
+		return err
+	}
+	if err := os.WriteFile(keysFile, b.keys, 0o600); err != nil {
+		return err
+	}
+	o, rerr := runKeys("import", "--keys_dir="+dir, "--key_bundle_file="+dataFile, "--key_bundle_secret="+keysFile)
+	if rerr != nil && strings.HasPrefix(rerr.Error(), "harness") {
+		return rerr
+	}
+	if err := dirToMem(dir, m); err != nil {
+		return fmt.Errorf("harness: %v", err)
+	}
+	if rerr != nil {
+		return fmt.Errorf("acra-keys import: %v: %s", rerr, lastLines(o))
+	}
+	return nil
 }
